@@ -617,9 +617,9 @@ pub fn run_cases(cases: &str, rep: &mut Report) {
         let fbits = case.int("fbits").unwrap_or(0);
         let n = case.int("n").unwrap_or(0) as usize;
         rep.eval("C06");
-        rep.count(&format!("pyfront.rust.{}.{}{}{}", coder, model, if variant.is_empty() { "".into() } else { format!("-{}", variant) }, if family { ".family" } else { ".concrete" }));
-        rep.count(&format!("pyfront.rust.f{}", fbits));
-        rep.count(&format!("pyfront.rust.len.{}", len_bucket(n)));
+        rep.count(&format!("C06.py.rust.{}.{}{}{}", coder, model, if variant.is_empty() { "".into() } else { format!("-{}", variant) }, if family { ".family" } else { ".concrete" }));
+        rep.count(&format!("C06.py.rust.f{}", fbits));
+        rep.count(&format!("C06.py.rust.len.{}", len_bucket(n)));
         let outcome = match guarded(|| run_case(&case)) {
             Ok(r) => r,
             Err(class) => Err(format!("rust side panicked ({}: {})", class, last_panic())),
